@@ -110,6 +110,12 @@ def gen_teams(rng, beta, kmin=2, kmax=8, pmax=8, regime=None):
         for i in range(k):
             n = rng.choice([1, 1, 2, 3, rng.randint(1, pmax)])
             teams.append([list(_player(rng, regime, beta)) for _ in range(n)])
+    if regime in ("typical", "wide", "equal_size", "huge_sigma") and beta >= 1.0 and rng.random() < 0.06:
+        # ratings given as Python ints (mu=25, sigma=8): valid values, and the only way an integer-division slip shows
+        for t in teams:
+            for p in t:
+                p[0] = int(round(p[0]))
+                p[1] = max(1, int(round(p[1])))
     for i, t in enumerate(teams):
         for j, p in enumerate(t):
             if len(p) < 3:
